@@ -79,6 +79,9 @@ Accept(e) ==
     [] e.kind = "group"    -> GroupOK(e)
     [] e.kind = "setop"    -> Decided(e.A \o e.B) => TextRows(e.res) = TextRows(SetOpRows(e))
     [] e.kind = "analytic" -> AnalyticOK(e)
+    \* the same source read by several queries of one statement (UNION ALL over a common table expression or
+    \* sub-query) or again by a later statement: what each part gives alone, in order (C14)
+    [] e.kind = "concat"   -> e.whole = Concat(e.parts)
     \* SELECT (cond) FROM t : the three-valued result of the condition for every row, in order
     [] e.kind = "truth"    -> e.res = [i \in 1..Len(e.in) |-> Truth(e.cond, e.in[i])]
 
